@@ -3,6 +3,7 @@ package main
 import (
 	"bytes"
 	"fmt"
+	"strings"
 	"time"
 
 	"github.com/dappledger/AnnChain/gemmill/consensus/pbft"
@@ -178,8 +179,13 @@ func (r *runner) scenario(si int, st mbt.Step) bool {
 	case "block-truncated":
 		d := blk(func(b *types.Block) {})
 		data = d[:len(d)/2]
-	case "block-nil-precommit-entries":
+	case "block-nil-precommit-entries", "same-header-other-body-late-parts":
+		// the header of X (so the same block hash) around another body, hence other parts
 		data = blk(func(b *types.Block) { b.LastCommit = &types.Commit{Precommits: []*types.Vote{nil, nil, nil, nil}} })
+	case "same-header-other-data-late-parts":
+		data = blk(func(b *types.Block) {
+			b.Data = &types.Data{Txs: types.Txs{types.Tx("not the voted body"), types.Tx("at all")}}
+		})
 	default:
 		r.fail(si, action, "error", false, "", "unknown scenario", nil, nil)
 		return false
@@ -221,6 +227,62 @@ func (r *runner) scenario(si int, st mbt.Step) bool {
 	if pv != nil {
 		r.fail(si, action, "panic", true, "crash:scenario:"+name, fmt.Sprintf("panic on the consensus goroutine at the propose timeout: %v\n%s", pv, stk), nil, "Crash")
 		return false
+	}
+	if strings.HasSuffix(name, "-late-parts") {
+		return r.lateParts(si, action, name, h, rd)
+	}
+	return true
+}
+
+// lateParts: the node has fully reassembled the Byzantine body (the voted header, another body).  The other validators got
+// the genuine block X: their +2/3 prevotes for X's BlockID arrive, then their +2/3 precommits - all BEFORE any genuine part.
+// The node must wait for the genuine parts: it may not hold the unvoted body as the polka / commit block, may not enter
+// finalizeCommit with it (that ends in PanicConsensus / PanicSanity on the consensus goroutine), may not commit yet.
+// (The genuine parts follow in the honest traffic after the scenario, and then it must commit.)
+func (r *runner) lateParts(si int, action, name string, h, rd int64) bool {
+	e := r.e
+	X := xsym(h)
+	want, err := e.blockID(X)
+	if err != nil {
+		r.fail(si, action, "error", false, "", err.Error(), nil, nil)
+		return false
+	}
+	check := func(stage string) bool {
+		p := e.cs.VerifProject(maxRound)
+		r.rep.Checks++
+		if e.n.Store.Height() >= h {
+			r.fail(si, action, "property", true, "committed-unvoted-body:"+name, "the node committed height "+fmt.Sprint(h)+" "+stage+" although it never received a part of the voted block", nil, nil)
+			return false
+		}
+		if p.Height == h && p.ProposalBlock != "-" && p.PartsHeader == fmt.Sprintf("%x", want.PartsHeader.Hash) && !p.PartsComplete {
+			r.fail(si, action, "property", true, "unvoted-body-kept:"+name,
+				fmt.Sprintf("%s the node holds a ProposalBlock (hash %s) while its part set for the voted parts header %x is incomplete: that block was not decoded from the voted parts (it is the Byzantine body with the voted header)", stage, p.ProposalBlock, want.PartsHeader.Hash), nil, nil)
+			return false
+		}
+		return true
+	}
+	for _, ty := range []string{"pv", "pc"} {
+		stage := map[string]string{"pv": "after +2/3 prevotes for the genuine BlockID", "pc": "after +2/3 precommits for the genuine BlockID"}[ty]
+		for _, i := range e.others() {
+			var herr error
+			pv, stk := mbt.Catch(func() {
+				herr = e.handlePeer(csim.Msg{T: "V", H: h, R: rd, Ty: ty, By: i, V: X})
+				e.runInternal()
+			})
+			r.rep.Count("scenario_messages")
+			if pv != nil {
+				r.fail(si, action, "panic", true, "crash:scenario:"+name,
+					fmt.Sprintf("panic on the consensus goroutine %s (no genuine part has arrived; the node went on with the body nobody voted for): %v\n%s", stage, pv, stk), nil, "Crash")
+				return false
+			}
+			if herr != nil {
+				r.fail(si, action, "error", false, "", herr.Error(), nil, nil)
+				return false
+			}
+		}
+		if !check(stage) {
+			return false
+		}
 	}
 	return true
 }
